@@ -40,7 +40,7 @@ class Match:
         return isinstance(__o, self.__class__) and hash(self) == hash(__o)
 
 
-MatchSet = set[Match]
+MatchSet = typing.Union[set[Match], dict[Match, None]]
 Matches = typing.Iterator[Match]
 
 
@@ -48,7 +48,7 @@ def sorted_by_longest_match(matches: typing.Iterable[Match]) -> list[Match]:
     return sorted(matches, key=lambda item: item.start, reverse=True)
 
 
-def next_longest(matches: MatchSet) -> Generator[Match, None, None]:
+def next_longest(matches: typing.Iterable[Match]) -> Generator[Match, None, None]:
     yield from sorted_by_longest_match(list(matches))
 
 
@@ -231,39 +231,43 @@ class Repetition:
             yield from next_longest(cached_matchset)
             return
 
+        # match sets are kept as insertion-ordered dicts rather than sets, so that
+        # the choice among several derivations with the same end does not depend on
+        # hash order (which varies from process to process for strings).
         if self.repeat.min == 0:
-            match_set: MatchSet = {Match([], start)}
+            match_set: dict[Match, None] = {Match([], start): None}
         else:
             concat_parser = Concatenation(*([self.element] * self.repeat.min))
             try:
                 # if this raises a ParseError, then the minimum match was not reached.
-                match_set = set(concat_parser.lparse(source, start))
+                match_set = dict.fromkeys(concat_parser.lparse(source, start))
             except ParseError as exc:
                 self.lparse_cache[cache_key] = exc
                 raise
 
-        last_match_set = set(match_set)
+        last_match_set = dict(match_set)
         match_count = self.repeat.min
 
         while True:
             if self.repeat.max is not None and match_count == self.repeat.max:
                 break
 
-            new_match_set: MatchSet = set()
+            new_match_set: dict[Match, None] = {}
             for match in last_match_set:
                 try:  # noqa: SIM105
                     # the call itself belongs inside the try: Prose.lparse is not a
                     # generator and raises ParseError as soon as it is called.
                     g = self.element.lparse(source, match.start)
-                    new_match_set.update(
-                        [Match(match.nodes + m.nodes, m.start) for m in g]
-                    )
+                    for m in g:
+                        new_match_set.setdefault(Match(match.nodes + m.nodes, m.start))
                 except ParseError:
                     pass
 
-            if not new_match_set <= match_set:
+            if not new_match_set.keys() <= match_set.keys():
                 match_count = match_count + 1
-                match_set = match_set | new_match_set
+                for m in new_match_set:
+                    # keeps the derivation found first for an end already present.
+                    match_set.setdefault(m)
                 last_match_set = new_match_set
             else:
                 break
@@ -479,7 +483,9 @@ class Rule:
             msg = f'Undefined rule "{self.name}"'
             raise GrammarError(msg) from exc
 
-        matches = set(filterfalse(exclude, g))
+        # dict.fromkeys rather than set: keep the first derivation for each end, in
+        # the order found, independent of hash order.
+        matches = dict.fromkeys(filterfalse(exclude, g))
         if matches:
             yield from [
                 Match([Node(self.name, *match.nodes)], match.start) for match in matches
